@@ -56,6 +56,7 @@ type FuncContract struct {
 	Borrows   bool   // pointer arguments are not retained by the callee
 	NoFrame   bool   // do not generate frame obligation
 	Variant   string // distinguishes several contract blocks for one function (e.g. "bv")
+	LoopsOver map[string]*LoopContract // range operand text -> contract (`loop over x: ...`)
 	Uses      map[string]string // callee key -> contract variant to apply at calls from this function
 	File      string
 	Line      int
@@ -549,14 +550,28 @@ func parseFuncClause(f *FuncContract, file string, ln int, kw, rest string) erro
 		if k < 0 {
 			return errf("loop N: ...")
 		}
-		n, err := strconv.Atoi(strings.TrimSpace(rest[:k]))
-		if err != nil {
-			return errf("bad loop ordinal")
-		}
-		lc := f.Loops[n]
-		if lc == nil {
-			lc = &LoopContract{}
-			f.Loops[n] = lc
+		var lc *LoopContract
+		if spec := strings.TrimSpace(rest[:k]); strings.HasPrefix(spec, "over ") {
+			// loop over <range operand>: addressed by what the loop ranges over, not by position
+			nm := strings.TrimSpace(spec[5:])
+			if f.LoopsOver == nil {
+				f.LoopsOver = map[string]*LoopContract{}
+			}
+			lc = f.LoopsOver[nm]
+			if lc == nil {
+				lc = &LoopContract{}
+				f.LoopsOver[nm] = lc
+			}
+		} else {
+			n, err := strconv.Atoi(spec)
+			if err != nil {
+				return errf("bad loop ordinal")
+			}
+			lc = f.Loops[n]
+			if lc == nil {
+				lc = &LoopContract{}
+				f.Loops[n] = lc
+			}
 		}
 		body := strings.TrimSpace(rest[k+1:])
 		switch {
